@@ -747,7 +747,7 @@ Proof.
   destruct pc as [q| |m sw|r m sw|r m sw| |r| |x].
   2-9: eapply user_step_nonstart_Inv; eauto; intros q0; discriminate.
   unfold user_step in H. rewrite Hu in H.
-  destruct q as [| |r|r|r|r|r|r|r|r]; simpl in H; rewrite ?Hv in H.
+  destruct q as [| |r|r|r|r|r|r|r|r|r]; simpl in H; rewrite ?Hv in H.
   - (* SCheck *)
     destruct (status_eqb (s_status s) Running) eqn:Er; inversion H; subst; clear H.
     + eapply user_abort_Inv; eauto.
@@ -766,6 +766,7 @@ Proof.
     exfalso. pose proof (i_user s HI (SOpenA r)) as Hx. unfold user_start in Hx. rewrite Hu in Hx. exact (Hx eq_refl).
   - exfalso. pose proof (i_user s HI (SOpenSrc r)) as Hx. unfold user_start in Hx. rewrite Hu in Hx. exact (Hx eq_refl).
   - exfalso. pose proof (i_user s HI (SOpenDlq r)) as Hx. unfold user_start in Hx. rewrite Hu in Hx. exact (Hx eq_refl).
+  - exfalso. pose proof (i_user s HI (SRollback r)) as Hx. unfold user_start in Hx. rewrite Hu in Hx. exact (Hx eq_refl).
   - (* SSpawn *)
     destruct (get_run s r) as [x|] eqn:Er; [|discriminate].
     pose proof (get_run_some _ _ _ Er); subst x. inversion H; subst; clear H. apply user_spawn_Inv; auto.
@@ -1308,7 +1309,7 @@ Proof.
     unfold clean_ok. simpl. repeat split; auto.
   - (* CStart q : the nested Start *)
     destruct Hok as (Hlt & Hpe & Hsp & Hbp).
-    destruct q as [| |r|r|r|r|r|r|r|r]; simpl in H; rewrite ?Hv in H; simpl in Hsp; try contradiction.
+    destruct q as [| |r|r|r|r|r|r|r|r|r]; simpl in H; rewrite ?Hv in H; simpl in Hsp; try contradiction.
     + (* SCheck *)
       rewrite Hsp in H. simpl in H. inversion H; subst; clear H.
       change (Inv (set_clean (with_status s (s_status s)) i (Some (CStart SBuild)))).
@@ -1465,15 +1466,16 @@ Lemma start_step_GG c s pc ch :
   | SStuck => True
   end.
 Proof.
-  intros Hv HG. destruct pc as [| |r|r|r|r|r|r|r|r]; simpl; rewrite ?Hv.
+  intros Hv HG. destruct pc as [| |r|r|r|r|r|r|r|r|r]; simpl; rewrite ?Hv.
   - destruct (status_eqb (s_status s) Running); exact HG.
   - destruct (s_guard s) eqn:Eg; [exact HG|].
     destruct (c_proc c && negb (onat_eqb (s_proc s) None)); [exact HG|].
     intros g Hg. destruct (c_proc c); simpl in Hg; rewrite Eg in Hg; discriminate.
   - exact HG.
-  - destruct ch as [|[|[|ch]]]; try destruct (c_proc c); try (match goal with |- context [existsb ?f ?l] => destruct (existsb f l) end); exact I.
+  - destruct ch as [|[|[|ch]]]; try destruct (c_proc c); try destruct (f_proc_open (c_fix c)); try (match goal with |- context [existsb ?f ?l] => destruct (existsb f l) end); exact I.
   - destruct (get_run s r); [|exact I]. destruct ch; [destruct (s_guard s)|]; exact I.
-  - destruct ch; exact I.
+  - destruct ch; [exact I|]. destruct (f_dlq_open (c_fix c)); exact I.
+  - destruct (get_run s r); [|exact I]. match goal with |- context [if ?b then _ else _] => destruct b end; exact I.
   - destruct (get_run s r) as [x|] eqn:E; [|exact I]. apply get_run_some in E. subst x.
     intros g Hg. simpl in *. destruct (HG g Hg) as [A B]. split; [|exact B].
     unfold fupd. destruct (Nat.eqb g r) eqn:E; [apply Nat.eqb_eq in E; subst; exact A|exact A].
